@@ -144,6 +144,9 @@ def make_resolver(fq):
                 err.extensions["code"] = "FORBIDDEN"
                 err.extensions["who"] = getattr(scn, "label", None) or "someone"
                 raise err
+            if fault == "raise_keyerror":
+                import datetime
+                raise KeyError(datetime.date(1999, 12, 31))
             if fault == "raise_coercible":
                 raise BusinessError("business rule at %s" % (list(path),), "BIZ")
             if fault == "raise_msgattr":
